@@ -977,6 +977,8 @@ impl ActTask for Arc<Task> {
         // update prev outputs to current task
         let outputs = ctx.task().outputs();
         self.update_data(&outputs);
+        // the outputs of the child are now part of this task's data, save them
+        ctx.runtime.cache().upsert(self)?;
 
         ctx.set_task(self);
 
